@@ -68,6 +68,32 @@ def neighbour_table(rng, t):
     return t
 
 
+def set_table_hostile(sf, t, rng, ctx=None):
+    """Set table t the way an untidy caller does: pass a dict, keep the reference, and (sometimes) change or empty
+    that dict afterwards.  Returns the table the library reports to be in force.  With copy semantics (property
+    C12) the later edits are invisible to the library; every check judges against the REPORTED table, so an
+    aliasing library shows up as a contradiction between that table and the translation behaviour."""
+    if isinstance(t, str):
+        sf.set_semantic_constraints(t)
+        return sf.get_semantic_constraints()
+    passed = dict(t)
+    sf.set_semantic_constraints(passed)
+    reported = sf.get_semantic_constraints()
+    x = rng.random()
+    if x < 0.25:
+        for k in list(passed):
+            passed[k] = rng.choice([0, 1, 9])
+        passed.pop("?", None)
+    elif x < 0.4:
+        passed.clear()
+    elif x < 0.5:
+        passed["?"] = 0
+        passed["C"] = 0
+    if x < 0.5 and ctx is not None:
+        ctx.count("passed_table_mutated_after_set")
+    return reported
+
+
 def invalid_update(rng):
     """(value, reason) - an update the library must reject."""
     if rng.random() < 0.4:
